@@ -78,6 +78,11 @@ impl OpFacts {
         if !anyone && !self.source_authorised {
             return Some("unauthorised_signer");
         }
+        if !anyone && !self.sig_genuine && self.kind == "reshaped_parents_moved_into_value" {
+            // its own shape: the signature IS checked, it covers the crdt node hash, and that hash does not tell this op
+            // from the one the writer signed
+            return Some("reshaped_op_with_the_signed_node_hash");
+        }
         if !anyone && !self.sig_genuine {
             return Some("forged_signature");
         }
